@@ -120,6 +120,13 @@ func (x *Exec) stmt(s ast.Stmt, st *State, cx *Ctx, k func(*State)) {
 	case *ast.DeferStmt:
 		call := s.Call
 		st.defers = append(st.defers, deferred{run: func(s2 *State, x *Exec, k2 func(*State)) {
+			if fn := x.staticCallee(call); fn != nil && fn.Pkg() != nil && fn.Pkg().Path() == x.fn.pkgPath() {
+				key := funcKeyOf(fn)
+				if fi := x.prog.funcs[key]; x.sp.Funcs[key] == nil && fi != nil && fi.decl.Body != nil {
+					x.inline(call, fi, s2, func(s3 *State, _ []Val) { k2(s3) })
+					return
+				}
+			}
 			x.evalMulti(s2, call)
 			k2(s2)
 		}})
